@@ -280,9 +280,11 @@ def pages_doc(pages, doc=None) -> bytes:
     cat = d.reserve()
     root = d.reserve()
     kids = []
-    for content, res in pages:
+    for pg in pages:
+        content, res = pg[0], pg[1]
+        extra = pg[2] if len(pg) > 2 else {}  # e.g. {"MediaBox": [...], "Rotate": 90}
         c = d.add(G.Stream({}, bytes(content)))
-        kids.append(d.add({"Type": G.N("Page"), "Parent": root, "MediaBox": [0, 0, 612, 792], "Resources": res, "Contents": c}))
+        kids.append(d.add({"Type": G.N("Page"), "Parent": root, "MediaBox": [0, 0, 612, 792], "Resources": res, "Contents": c, **extra}))
     d.set(cat, {"Type": G.N("Catalog"), "Pages": root})
     d.set(root, {"Type": G.N("Pages"), "Kids": kids, "Count": len(kids)})
     return d.write(cat)
